@@ -123,6 +123,56 @@ def dom_boundary(chars=(b'x', b'7', b'-')):
     # numeric / mixed
     for d in (b'1', b'1.2', b'1.2.3.4', b'1a', b'1.a', b'1-2', b'0.', b'123.456.', b'1.2.3.4.5x'):
         out.append(d)
+    out += long_name_shapes()
+    return out
+
+def long_idn_domains(nums=()):
+    """domains of 500-4200 octets (every size the sources mention as a number, the powers of two, +-2) that the IDNA mapping shrinks to a short
+    name — a short ASCII name followed by code points mapped to nothing — ending in nothing, in an ill-formed octet, in a disallowed code
+    point, in a hyphen: a fixed-size copy or a length cap in front of the conversion shows only beyond its size"""
+    sizes = sorted(set([n + d for n in list(nums) + [512, 1000, 1024, 2048, 4096] if 300 <= n <= 4200 for d in (-2, -1, 0, 1, 2, 3)]))
+    out = []
+    for n in sizes:
+        for fill in ('\u00ad', '\u200b'):
+            k = max((n - 8) // len(fill.encode()), 1)
+            body = b'gnu.org' + fill.encode() * k
+            body += b'a' * max(n - len(body) - 1, 0)
+            for tail in (b'', b'\xff', '\u2603'.encode(), b'-', b'.'):
+                out.append(body[:max(n - len(tail), 1)] + tail)
+    return out
+
+def name_of_length(p, short=False):
+    """a valid host name (no root dot) of exactly p octets: 63-octet labels, or 1-octet labels when short"""
+    if p <= 0: return b''
+    if short:
+        return (b'a.' * (p // 2 + 1))[:p - 1] + (b'a' if p % 2 else b'bb'[:1]) if p % 2 else (b'a.' * (p // 2 - 1)) + b'bb'
+    labs = []; left = p; k = 0
+    while left > 0:
+        if labs: left -= 1
+        n = min(63, left)
+        if left - n == 1: n -= 1          # do not leave room for a lone dot
+        labs.append(bytes([97 + k % 26]) * n); left -= n; k += 1
+    return b'.'.join(labs)
+
+def long_name_shapes():
+    """names around the 253 / 254 / 255 limits with a dot at every position 247-258 and every kind of tail — a listed TLD, a reserved
+    name, nothing, a root dot — built from 63-octet and from 1-octet labels: limits that count the root dot, a truncating copy,
+    a test one octet off show only where a dot or a reserved name sits exactly on the limit"""
+    out = []
+    tails = (b'com', b'c', b'de', b'test', b'onion', b'example.com', b'example.org', b'invalid', b'localhost', b'zz', b'')
+    for p in range(247, 259):
+        for short in (False, True):
+            head = name_of_length(p, short)
+            for t in tails:
+                out.append(head + b'.' + t)
+                if t: out.append(head + b'.' + t + b'.')
+    # reserved / listed endings with the whole name at exactly T octets, with and without the root dot
+    for T in range(249, 258):
+        for t in (b'test', b'example.com', b'example.net', b'invalid', b'localhost', b'onion', b'com', b'arpa', b'museum'):
+            for short in (False, True):
+                head = name_of_length(T - len(t) - 1, short)
+                if head:
+                    out.append(head + b'.' + t); out.append(head + b'.' + t + b'.')
     return out
 
 def dom_sweep():
@@ -479,6 +529,17 @@ def ip_contents():
             out += ['IPv6:' + ':'.join([g] * 8), ':'.join([g] * 8), 'IPv6:' + ':'.join([g] * 6) + ':' + q, ':'.join([g] * 6) + ':' + q,
                     'IPv6:' + ':'.join([g] * 3) + '::' + ':'.join([g] * 3), 'IPv6:' + ':'.join([g] * 2) + '::' + ':'.join([g] * 2) + ':' + q,
                     'IPv6:::' + ':'.join([g] * 4) + ':' + q, 'IPv6:' + ':'.join([g] * 4) + '::' + q, 'IPv6:' + ':'.join([g] * 5) + ':' + q, 'IPv6:' + ':'.join([g] * 7) + ':' + q]
+    # spellings of a number that library parsers (strtol / strtoul / sscanf / atoi) take and the RFC grammar does not: prefixes, signs, blanks,
+    # exponents, separators, suffixes, other digits — as an octet in every position and as a group at the start, in the middle, at the end,
+    # next to '::' and in the dotted tail
+    for sp in ('0x1', '0X1', '0x1f', '0xa', '0x', 'x1', '1x', '+1', '-1', '+0', '-0', ' 1', '1 ', '\t1', '1e1', '1E0', '0b1', '0o7', '1_0', '1,0', '1l', '1u', '1L',
+               '0x01', '00x1', '1.', '1f', '０', '１', '١', '1\x0b', '\n1', '1h', '0x00ff', '0Xff'):
+        for pos in range(4):
+            q = ['1', '2', '3', '4']; q[pos] = sp
+            out.append('.'.join(q)); out.append('IPv6:::ffff:' + '.'.join(q))
+        for tag in ('IPv6:', ''):
+            out += [tag + sp + '::', tag + '::' + sp, tag + sp + '::1', tag + '1::' + sp, tag + '1:' + sp + '::2', tag + '1:2:3:4:5:6:7:' + sp, tag + sp + ':2:3:4:5:6:7:8',
+                    tag + '1:2:3:' + sp + ':5:6:7:8', tag + '1::' + sp + ':1.2.3.4']
     out += ['IPv6:ffff:ffff:ffff:ffff:ffff:ffff:255.255.255.255', 'IPv6:1111:2222:3333:4444:5555:6666:10.10.10.1', 'IPv6:1111:2222:3333:4444:5555:6666:10.10.1.1',
             'IPv6:ffff:ffff:ffff:ffff:ffff:ffff:ffff:ffff', 'IPv6:0000:0000:0000:0000:0000:0000:0000:0000', 'IPv6:00000::1', 'IPv6:ffff:ffff:ffff:ffff:ffff:ffff:255.255.255.2555']
     return [c.encode() for c in out]
